@@ -68,6 +68,8 @@ def urlPolicyNamed (name : Bytes) : Option UrlPolicy :=
 def rewriterNamed (name : Bytes) : Option UrlRewriter :=
   if name == strBytes "id" then some id
   else if name == strBytes "clearquery" then some fun u => { u with rawQuery := [] }
+  else if name == strBytes "relproxy" then some fun u =>
+    { path := strBytes "/media-proxy", rawQuery := strBytes "u=" ++ Url.escape .queryComponent (Url.print u) }
   else match bytesAfter "sethost=" name with
     | some h => some fun u => { u with host := h }
     | none => match bytesAfter "proxy=" name with
